@@ -42,7 +42,7 @@ prop(
     "reference-grammar monitor: every generated name is judged by the three validators and by a regexp grammar over idna.ToASCII(s) written from the statement; "
     "subset chain, error type and AddrError.Addr asserted on every call. " + NAMEGEN +
     ". Non-trivial: the name reaches the label loops (non-empty, <=300 bytes) or is grammar-valid; enumerations do not repeat names, random families may (counted once per emission)",
-    [st("grammar", "names", "TestC03", timeout_q=600, timeout_t=2400), st("fuzz", "names", "FuzzC03", fuzz=True, tiers=["thorough"], fuzztime_t="120s")],
+    [st("grammar", "names", "TestC03", timeout_q=600, timeout_t=5400), st("fuzz", "names", "FuzzC03", fuzz=True, tiers=["thorough"], fuzztime_t="120s")],
     floors=[dict(stage="grammar", key="evaluations", min=1_000_000), dict(stage="grammar", key="domain_valid_by_grammar", min=10_000)],
     assumptions=["idna.ToASCII of golang.org/x/net v0.39.0 (the version golibs pins) is the ToASCII the statement names"],
 )
@@ -51,7 +51,7 @@ prop(
     "round-trip + canonical-form monitor: addresses are encoded and compared with an independent RFC 1035/3596 encoder, then decoded in lower/UPPER/random case with and without a trailing dot; "
     "every name-shaped string of the shared families is given to the decoder and anything accepted must equal the canonical name of the returned address. " + NAMEGEN +
     ". Non-trivial: a valid address round trip, or a name that mentions '.arpa' / is accepted",
-    [st("codec", "names", "TestC04", timeout_q=600, timeout_t=3000), st("fuzz", "names", "FuzzC04", fuzz=True, tiers=["thorough"], fuzztime_t="90s")],
+    [st("codec", "names", "TestC04", timeout_q=600, timeout_t=5400), st("fuzz", "names", "FuzzC04", fuzz=True, tiers=["thorough"], fuzztime_t="90s")],
     floors=[dict(stage="codec", key="addr_roundtrips", min=100_000), dict(stage="codec", key="names_accepted", min=1_000)],
 )
 prop(
@@ -59,7 +59,7 @@ prop(
     "reference-decoder monitor: PrefixFromReversedAddr and ExtractReversedAddr are compared (success and value) with a label-sequence decoder written from the statement; "
     "ExtractReversedAddr's reference is the longest label-aligned suffix the prefix reference accepts, gated by golibs' own ValidateDomainName (decided by C03). " + NAMEGEN +
     ". Non-trivial: the statement accepts the name or it mentions 'arpa'",
-    [st("prefix", "names", "TestC05", timeout_q=600, timeout_t=2400), st("fuzz", "names", "FuzzC05", fuzz=True, tiers=["thorough"], fuzztime_t="120s")],
+    [st("prefix", "names", "TestC05", timeout_q=600, timeout_t=5400), st("fuzz", "names", "FuzzC05", fuzz=True, tiers=["thorough"], fuzztime_t="120s")],
     floors=[dict(stage="prefix", key="evaluations", min=1_000_000), dict(stage="prefix", key="prefix_accepted_by_statement", min=10_000)],
 )
 
@@ -170,7 +170,7 @@ prop(
     "formatted and unwrapped; the current input is kept in a crash-surviving mmap cursor so that process-fatal errors (checkptr, stack exhaustion) yield the input; a watchdog restates 'never loops without bound' as bounded progress "
     "(10 s in the workload, confirmed by a 60 s solo re-run). Inputs: the shared name/ARPA families, hosts lines, URL texts, address alphabets, every rune of every fold orbit with more than two members, duration texts, runs of one token "
     "up to 70 000 bytes, the repository's own table rows; net.IP of every length 0..33 x masks of every length 0..20. Evaluations = entry-point calls; non-trivial = non-empty input (enumerations distinct by construction)",
-    [st("names", "c01", "TestNames", checkptr=True, timeout_q=900, timeout_t=3000), st("texts", "c01", "TestTexts", checkptr=True, timeout_q=900, timeout_t=3000), st("typed", "c01", "TestTyped", checkptr=True, timeout_q=600, timeout_t=2400)],
+    [st("names", "c01", "TestNames", checkptr=True, timeout_q=900, timeout_t=5400), st("texts", "c01", "TestTexts", checkptr=True, timeout_q=900, timeout_t=5400), st("typed", "c01", "TestTyped", checkptr=True, timeout_q=600, timeout_t=2400)],
     floors=[dict(stage="names", key="inputs", min=1_000_000), dict(stage="texts", key="inputs", min=1_000_000), dict(stage="typed", key="typed_inputs", min=50_000)],
     assumptions=["documented 'must' preconditions are honoured (valid address family, non-nil *url.URL, syntactically valid JSON for UnmarshalJSON, valid domain for Subdomains); 'should' preconditions are not",
                  "that a call never diverges is out of reach of runtime monitoring; it is restated as bounded progress"],
